@@ -108,6 +108,16 @@ def gen_tree(rng, depth_above=None, small=False):
     if rng.chance(1, 5):
         depth = len(t.root.split(b'/')) - 1 + da + 1
         t.link(root + b'climb.lnk', b'../' * (depth + rng.range(0, 2)) + t.root[1:] + b'/secret.txt'); names.append(b'climb.lnk')
+    # links two and three directories deep whose relative targets climb back to files INSIDE the root, with a marked namesake of
+    # each target at every level ABOVE the root (a resolution against the wrong directory reads the namesake)
+    if rng.chance(1, 2):
+        t.file(root + b'notes.txt', b'the notes inside the root').file(root + b'sub/notes.txt', b'the notes inside sub')
+        for i in range(da + 1):
+            anc = b'/'.join(comps[:i]); pre = anc + b'/' if anc else b''
+            t.file(pre + b'notes.txt', marker(pre + b'notes.txt') + b' notes').file(pre + b'sub/notes.txt', marker(pre + b'sub/notes.txt'))
+        t.link(root + b'sub/deep/upup.lnk', b'../../notes.txt').link(root + b'sub/deep/up1.lnk', b'../notes.txt')
+        t.link(root + b'sub/deep/er/up3.lnk', b'../../../notes.txt').link(root + b'sub/deep/er/mid.lnk', b'../../notes.txt')
+        names += [b'sub/deep/upup.lnk', b'sub/deep/up1.lnk', b'sub/deep/er/up3.lnk', b'sub/deep/er/mid.lnk', b'notes.txt']
     # a directory reached through a link, holding a file link with a relative `..` target: what the kernel resolves (through the
     # real directory) and what a textual resolution from the requested path gives are different files
     if rng.chance(1, 3):
